@@ -14,11 +14,24 @@
 (*   Silence       = Connection.factory: connected_event.wait() times out,        *)
 (*                   close(), OperationTimedOut              (connection.py:848)  *)
 (*   Probe         = any request sent on the ready connection (send_msg)          *)
+(* Two threads: the event loop runs the callbacks above; the caller sits in        *)
+(* Connection.factory blocked on connected_event.wait().  With Fine = TRUE the     *)
+(* failure path is split into the steps of Connection.defunct (connection.py:982)  *)
+(* resp. the reactor's close(): mark defunct/closed (part of the reply action),    *)
+(* record last_error, close, error the pending requests, connected_event.set() -   *)
+(* action FailStep - and the factory thread's wake-up (FactoryObserve: reads       *)
+(* last_error, raises it or returns the connection) is enabled at any moment at    *)
+(* which connected_event is set.  With Fine = FALSE those steps and the wake-up    *)
+(* are taken atomically (sound because of NoEarlyWake, checked on the fine model). *)
+(* EarlySet = TRUE is the wrong order (event set before last_error is recorded);   *)
+(* it must violate FactoryReturnsOnlyAfterReady - the vacuity witness of the race. *)
 (* The environment (server) chooses every reply freely.                           *)
 EXTENDS Naturals, Sequences, FiniteSets, TLC
 
 CONSTANTS Versions,      \* protocol versions explored, subset of 1..6
-          MaxLen         \* bound on the number of server replies
+          MaxLen,        \* bound on the number of server replies
+          Fine,          \* BOOLEAN: failure path and factory wake-up as separate steps
+          EarlySet       \* BOOLEAN: (witness only) connected_event set before last_error is recorded
 
 Algos        == {"lz4", "snappy"}          \* keys of locally_supported_compressions, lz4 first (preferred)
 AuthKinds    == {"none", "sasl", "dict"}   \* authenticator: None / Authenticator object / credentials dict
@@ -51,8 +64,14 @@ VARIABLES cfg,          \* configuration of this connection (constant along a be
           outcome,
           sent,         \* frames written by the connection, in order
           probed,
+          evt,          \* connected_event.is_set()
+          lastErr,      \* Connection.last_error: "none" / "auth" (AuthenticationFailed) / "conn" (anything else)
+          todo,         \* remaining steps of the failure path in progress
+          factory,      \* the thread in Connection.factory: waiting / returned / raised_auth / raised_conn
           act
-vars == <<cfg, phase, prev, hist, remote, negotiated, compOn, cksum, accepted, outcome, sent, probed, act>>
+vars == <<cfg, phase, prev, hist, remote, negotiated, compOn, cksum, accepted, outcome, sent, probed,
+          evt, lastErr, todo, factory, act>>
+thr  == <<evt, lastErr, todo, factory>>
 
 \* what a frame sent now looks like on the wire. OPTIONS has an empty body and is never compressed.
 Frame(op, c, s, acc) == [op |-> op, comp |-> c /\ op # "OPTIONS", seg |-> s,
@@ -66,6 +85,7 @@ InitWith(c) ==
     /\ outcome = "pending"
     /\ sent = <<[op |-> "OPTIONS", comp |-> FALSE, seg |-> FALSE, alg |-> "none", after |-> FALSE]>>
     /\ probed = FALSE
+    /\ evt = FALSE /\ lastErr = "none" /\ todo = <<>> /\ factory = "waiting"
     /\ act = [name |-> "Init", m |-> Simple("")]
 
 Init == \E c \in Configs : InitWith(c)
@@ -89,7 +109,25 @@ Step(m) == /\ hist' = Append(hist, m) /\ prev' = phase
            /\ act' = [name |-> "Reply", m |-> m]
            /\ UNCHANGED <<cfg, probed>>
 
-Fail(o) == /\ phase' = "Failed" /\ outcome' = o
+\* Connection.defunct(exc) after is_defunct = True:  last_error = exc; close(); error_all_requests(exc);
+\* connected_event.set()          reactor close() after is_closed = True: error_all_requests;
+\* last_error = ConnectionShutdown (handshake unfinished); connected_event.set()
+DefunctSteps == IF EarlySet THEN <<"set", "record", "close", "errreq">> ELSE <<"record", "close", "errreq", "set">>
+CloseSteps   == <<"errreq", "record", "set">>
+Cls(o)    == IF o = "auth_failed" THEN "auth" ELSE "conn"
+Raised(e) == IF e = "auth" THEN "raised_auth" ELSE "raised_conn"
+
+\* the handler raised (defunct_on_error) / the transport closed: the connection is dead from here on
+Die(o, steps) ==
+    /\ phase' = "Failed" /\ outcome' = o
+    /\ IF Fine THEN todo' = steps /\ UNCHANGED <<lastErr, evt, factory>>
+               ELSE todo' = <<>> /\ lastErr' = Cls(o) /\ evt' = TRUE /\ factory' = Raised(Cls(o))
+
+\* handshake complete: connected_event.set() with last_error still None
+Wake == /\ evt' = TRUE /\ UNCHANGED <<lastErr, todo>>
+        /\ factory' = IF Fine THEN factory ELSE "returned"
+
+Fail(o) == /\ Die(o, DefunctSteps)
            /\ UNCHANGED <<negotiated, compOn, cksum, sent>>
 
 OptionsReply(m) ==
@@ -102,7 +140,7 @@ OptionsReply(m) ==
                ELSE /\ negotiated' = Choice(m.algos)
                     /\ phase' = "StartupSent"
                     /\ sent' = Append(sent, Frame("STARTUP", compOn, cksum, accepted))
-                    /\ UNCHANGED <<compOn, cksum, accepted, outcome>>
+                    /\ UNCHANGED <<compOn, cksum, accepted, outcome>> /\ UNCHANGED thr
        ELSE Fail("conn_error") /\ UNCHANGED <<remote, accepted>>   \* ConnectionException("Did not get expected SupportedMessage")
 
 \* _enable_compression + _enable_checksumming
@@ -115,40 +153,40 @@ StartupReply(m) ==
     /\ Step(m)
     /\ UNCHANGED <<remote, negotiated>>
     /\ CASE m.k = "READY" ->
-                /\ Accept /\ phase' = "Ready" /\ outcome' = "ready" /\ UNCHANGED sent
+                /\ Accept /\ phase' = "Ready" /\ outcome' = "ready" /\ Wake /\ UNCHANGED sent
          [] m.k = "AUTHENTICATE" /\ cfg.auth = "none" ->          \* AuthenticationFailed('Remote end requires authentication')
-                /\ phase' = "Failed" /\ outcome' = "auth_failed" /\ accepted' = TRUE
+                /\ Die("auth_failed", DefunctSteps) /\ accepted' = TRUE
                 /\ UNCHANGED <<compOn, cksum, sent>>
          [] m.k = "AUTHENTICATE" /\ cfg.auth = "dict" ->          \* CredentialsMessage: only protocol v1 can encode it
                 /\ Accept
                 /\ IF cfg.ver > 1
-                   THEN phase' = "Failed" /\ outcome' = "conn_error" /\ UNCHANGED sent      \* UnsupportedOperation
-                   ELSE /\ phase' = "CredsSent" /\ UNCHANGED outcome
+                   THEN Die("conn_error", DefunctSteps) /\ UNCHANGED sent      \* UnsupportedOperation
+                   ELSE /\ phase' = "CredsSent" /\ UNCHANGED outcome /\ UNCHANGED thr
                         /\ sent' = Append(sent, Frame("CREDENTIALS", negotiated # "none", Cks(cfg.ver), TRUE))
          [] m.k = "AUTHENTICATE" /\ cfg.auth = "sasl" ->
-                /\ Accept /\ phase' = "AuthSent" /\ UNCHANGED outcome
+                /\ Accept /\ phase' = "AuthSent" /\ UNCHANGED outcome /\ UNCHANGED thr
                 /\ sent' = Append(sent, Frame("AUTH_RESPONSE", negotiated # "none", Cks(cfg.ver), TRUE))
          [] m.k = "ERROR" ->
-                /\ phase' = "Failed" /\ UNCHANGED <<compOn, cksum, accepted, sent>>
-                /\ outcome' = IF phase = "CredsSent" THEN "auth_failed" ELSE "conn_error"
+                /\ Die(IF phase = "CredsSent" THEN "auth_failed" ELSE "conn_error", DefunctSteps)
+                /\ UNCHANGED <<compOn, cksum, accepted, sent>>
          [] OTHER ->                                               \* ProtocolError("Unexpected response during Connection setup")
-                /\ phase' = "Failed" /\ outcome' = "conn_error" /\ UNCHANGED <<compOn, cksum, accepted, sent>>
+                /\ Die("conn_error", DefunctSteps) /\ UNCHANGED <<compOn, cksum, accepted, sent>>
 
 AuthReply(m) ==
     /\ Live /\ phase = "AuthSent" /\ ~ProtoErr(m)
     /\ Step(m)
     /\ UNCHANGED <<remote, negotiated, cksum, accepted>>
     /\ CASE m.k = "AUTH_SUCCESS" ->
-                /\ phase' = "Ready" /\ outcome' = "ready" /\ compOn' = (negotiated # "none") /\ UNCHANGED sent
+                /\ phase' = "Ready" /\ outcome' = "ready" /\ compOn' = (negotiated # "none") /\ Wake /\ UNCHANGED sent
          [] m.k = "AUTH_CHALLENGE" /\ m.kind = "valid" ->          \* authenticator.evaluate_challenge answers
                 /\ sent' = Append(sent, Frame("AUTH_RESPONSE", compOn, cksum, accepted))
-                /\ UNCHANGED <<phase, outcome, compOn>>
+                /\ UNCHANGED <<phase, outcome, compOn>> /\ UNCHANGED thr
          [] m.k = "AUTH_CHALLENGE" /\ m.kind = "bad" ->            \* evaluate_challenge raises -> defunct
-                /\ phase' = "Failed" /\ outcome' = "conn_error" /\ UNCHANGED <<compOn, sent>>
+                /\ Die("conn_error", DefunctSteps) /\ UNCHANGED <<compOn, sent>>
          [] m.k = "ERROR" ->
-                /\ phase' = "Failed" /\ outcome' = "auth_failed" /\ UNCHANGED <<compOn, sent>>
+                /\ Die("auth_failed", DefunctSteps) /\ UNCHANGED <<compOn, sent>>
          [] OTHER ->
-                /\ phase' = "Failed" /\ outcome' = "conn_error" /\ UNCHANGED <<compOn, sent>>
+                /\ Die("conn_error", DefunctSteps) /\ UNCHANGED <<compOn, sent>>
 
 \* ERROR 0x000A in any phase: process_msg defuncts the connection with the ProtocolException itself
 ServerProtoError(m) ==
@@ -159,19 +197,40 @@ ServerProtoError(m) ==
 Disconnect ==
     /\ Live
     /\ Step(Simple("Disconnect"))
-    /\ Fail("conn_error") /\ UNCHANGED <<remote, accepted>>
+    /\ Die("conn_error", CloseSteps)
+    /\ UNCHANGED <<negotiated, compOn, cksum, sent, remote, accepted>>
 
+\* the factory thread itself: wait() timed out with the event unset -> conn.close(), raise OperationTimedOut
 Silence ==
-    /\ Live
+    /\ Live /\ factory = "waiting" /\ ~evt
     /\ Step(Simple("Silence"))
-    /\ Fail("conn_error") /\ UNCHANGED <<remote, accepted>>
+    /\ phase' = "Failed" /\ outcome' = "conn_error"
+    /\ factory' = "raised_conn" /\ lastErr' = "conn" /\ evt' = TRUE /\ todo' = <<>>
+    /\ UNCHANGED <<negotiated, compOn, cksum, sent, remote, accepted>>
+
+\* event loop: next step of defunct() / close()
+FailStep ==
+    /\ todo # <<>>
+    /\ todo' = Tail(todo)
+    /\ lastErr' = IF Head(todo) = "record" THEN Cls(outcome) ELSE lastErr
+    /\ evt' = IF Head(todo) = "set" THEN TRUE ELSE evt
+    /\ act' = [name |-> "FailStep", m |-> Simple(Head(todo))]
+    /\ UNCHANGED <<cfg, phase, prev, hist, remote, negotiated, compOn, cksum, accepted, outcome, sent, probed, factory>>
+
+\* factory thread woken by connected_event: "if conn.last_error: raise ... else: return conn"
+FactoryObserve ==
+    /\ evt /\ factory = "waiting"
+    /\ factory' = IF lastErr # "none" THEN Raised(lastErr) ELSE "returned"
+    /\ act' = [name |-> "FactoryObserve", m |-> Simple("")]
+    /\ UNCHANGED <<cfg, phase, prev, hist, remote, negotiated, compOn, cksum, accepted, outcome, sent, probed,
+                   evt, lastErr, todo>>
 
 Probe ==
-    /\ phase = "Ready" /\ ~probed
+    /\ phase = "Ready" /\ ~probed /\ factory = "returned"
     /\ probed' = TRUE
     /\ sent' = Append(sent, Frame("QUERY", compOn, cksum, accepted))
     /\ act' = [name |-> "Probe", m |-> Simple("")]
-    /\ UNCHANGED <<cfg, phase, prev, hist, remote, negotiated, compOn, cksum, accepted, outcome>>
+    /\ UNCHANGED <<cfg, phase, prev, hist, remote, negotiated, compOn, cksum, accepted, outcome>> /\ UNCHANGED thr
 
 AnyOptionsReply == \E m \in Replies(phase) : OptionsReply(m)
 AnyStartupReply == \E m \in Replies(phase) : StartupReply(m)
@@ -179,6 +238,7 @@ AnyAuthReply    == \E m \in Replies(phase) : AuthReply(m)
 AnyProtoError   == \E m \in Replies(phase) : ServerProtoError(m)
 
 Next == AnyOptionsReply \/ AnyStartupReply \/ AnyAuthReply \/ AnyProtoError \/ Disconnect \/ Silence \/ Probe
+        \/ FailStep \/ FactoryObserve
 
 Spec == Init /\ [][Next]_vars
 
@@ -190,12 +250,25 @@ TypeOK ==
     /\ remote \subseteq Algos /\ negotiated \in Algos \cup {"none"}
     /\ compOn \in BOOLEAN /\ cksum \in BOOLEAN /\ accepted \in BOOLEAN /\ probed \in BOOLEAN
     /\ Len(hist) <= MaxLen
+    /\ evt \in BOOLEAN /\ lastErr \in {"none", "auth", "conn"}
+    /\ factory \in {"waiting", "returned", "raised_auth", "raised_conn"}
 
 \* reported ready only after the server sent READY or AUTH_SUCCESS
 ReadyOnlyAfterReadyOrAuthSuccess ==
     /\ (outcome = "ready") <=> (phase = "Ready")
     /\ phase = "Ready" => Len(hist) > 0 /\ Last.k \in {"READY", "AUTH_SUCCESS"}
     /\ phase = "Failed" <=> outcome \in {"auth_failed", "conn_error"}
+
+\* ... as seen by the caller: Connection.factory hands out the connection only after READY / AUTH_SUCCESS,
+\* whatever the moment at which its thread wakes up; otherwise it raises the error class of the failure
+FactoryReturnsOnlyAfterReady ==
+    /\ factory = "returned" => phase = "Ready" /\ Len(hist) > 0 /\ Last.k \in {"READY", "AUTH_SUCCESS"}
+    /\ factory = "raised_auth" => outcome = "auth_failed"
+    /\ factory = "raised_conn" => outcome = "conn_error"
+
+\* justifies Fine = FALSE: while defunct()/close() are under way the event is not yet set, so the factory
+\* thread cannot observe an intermediate state
+NoEarlyWake == todo # <<>> => ~evt /\ factory = "waiting"
 
 \* authentication failures -> authentication error, every other failure -> connection error.
 \* MustAuth: refused credentials, or the server demands authentication and none is configured.
